@@ -201,6 +201,7 @@ type writer struct {
 	op     *WOp
 	step   int
 	alive  []*subState // subscriptions that were running when the operation began
+	n      *pb.Notification
 }
 
 type world struct {
@@ -508,9 +509,8 @@ func (w *world) doWriter(wr *writer) {
 	name := wr.target
 	switch wr.op.Kind {
 	case "noti":
-		n := w.buildNoti(wr.op)
-		w.recordSubmitted(n)
-		wr.err = w.c.GnmiUpdate(n)
+		w.recordSubmitted(wr.n)
+		wr.err = w.c.GnmiUpdate(wr.n)
 	case "reset":
 		w.c.Reset(name)
 	case "remove":
@@ -587,6 +587,33 @@ func (w *world) stepWriter(st Step) {
 	for _, s := range w.subs {
 		if s.started && !s.ended {
 			wr.alive = append(wr.alive, s)
+		}
+	}
+	if op.Kind == "noti" {
+		wr.n = w.buildNoti(op)
+	}
+	// A leaf of a subscription's start-time snapshot that this operation may delete
+	// need not be sent before the sync: excuse it now (the delete may take effect in
+	// the tree long before it is fed, if the writer parks in between).
+	for _, s := range w.subs {
+		if !s.started || s.syncStep >= 0 {
+			continue
+		}
+		for k := range s.snapshot {
+			ku := gn.Unkey(k)
+			if ku[0] != name {
+				continue
+			}
+			switch op.Kind {
+			case "reset", "remove":
+				s.excused[k] = true
+			case "noti":
+				for _, d := range wr.n.Delete {
+					if gn.Matches(keyOfDelete(wr.n, d), ku) {
+						s.excused[k] = true
+					}
+				}
+			}
 		}
 	}
 	if st.ParkFeed && op.Kind == "noti" {
